@@ -191,10 +191,28 @@ def _discharged(c, sim, g, par, fnode, n, D):
     while id(x) in par:
         p = par[id(x)]
         kids = p.get("c", [])
-        if p.get("k") in ("CompoundStmt",):
+        if p.get("k") in ("CompoundStmt", "CaseStmt", "DefaultStmt"):
+            # statements that precede x in this block; inside a switch body only those of x's own arm
+            # (back to the nearest break), looking through `case L:` wrappers at their first statement
+            prev = []
             for sib in kids:
                 if sib is x:
                     break
+                prev.append(sib)
+            arm = []
+            for sib in reversed(prev):
+                if sib.get("k") == "BreakStmt":
+                    break
+                arm.append(sib)
+            cand = []
+            for sib in arm:
+                y = sib
+                while y.get("k") in ("CaseStmt", "DefaultStmt") and y.get("c"):
+                    y = y["c"][-1]
+                cand.append(y)
+            if x.get("k") not in ("CaseStmt", "DefaultStmt") and p.get("k") in ("CaseStmt", "DefaultStmt"):
+                cand = []
+            for sib in cand:
                 if sib.get("k") == "IfStmt" and len(sib.get("c", [])) >= 2:
                     ce_ = sim.cond_of(sib)
                     if ce_ is not None and _zero_implies(ce_, core) and _is_exit(c, sib["c"][1]):
